@@ -2,6 +2,8 @@ import GqlProofs.ValSpec.Spreads
 import GqlProofs.ValSpec.LeafFrag
 import GqlProofs.ValSpec.DefDirs
 import GqlProofs.ValSpec.LinkWitness
+import GqlProofs.ValSpec.Present
+import GqlProofs.Props.C08
 import GqlModel.Validate.Spec.Links
 /-
   C09 — validated documents are completely and correctly linked.
@@ -43,7 +45,7 @@ import GqlModel.Validate.Spec.Links
   directives on the first visit of the fragment in every operation, `walkSelection` `.spread`.)
   For field / value links the missing lemma is `walk_parent_type` (see C08.lean).
 -/
-open Gql Gql.Validate
+open Gql Gql.Validate Gql.Validate.Rules
 
 /-- the link carried by an event is the one `Spec.expectedLinks` demands (context-free link kinds) -/
 def LinkSound (s : Schema) (d : QueryDoc) : Payload → Prop
@@ -274,3 +276,86 @@ theorem C09_inline_fragment_link_counterexample :
     (Spec.inlineType schemaI (schemaI.type? (str "AB")) (str "A")).map (·.name) = some (str "A") ∧
     str "A" ≠ str "AB" := by
   refine ⟨by decide +kernel, by decide +kernel, by decide +kernel, by decide⟩
+
+/-! ## The capstone -/
+
+/-- a rule of the default rule set reports nothing on a document that validates (C18) -/
+theorem validate_default_single (s : Schema) (d : QueryDoc) (h : validate defaultRules s d = .ok [])
+    (r : Rule) (hmem : r ∈ defaultRules) : validate [r] s d = .ok [] := by
+  have hd : (defaultRules.map (·.name)).Nodup := by decide
+  unfold validate at *
+  obtain ⟨evs, hw, hrun⟩ := validateV_ok_iff.1 h
+  apply validateV_ok_iff.2
+  refine ⟨evs, hw, ?_⟩
+  exact runAll_filter hrun (by rw [rnames_start]; exact hd) (Rule.start r) (List.mem_map.2 ⟨_, hmem, rfl⟩)
+
+/-- what validity says about links: FieldsOnCorrectType, KnownFragmentNames, KnownDirectives and
+    KnownArgumentNames through their C08 equivalences; KnownRootType and KnownTypeNames (no
+    equivalence yet) as the hypotheses `hKnownRootType`, `hKnownTypeNames` -/
+theorem linkRules_of_valid (s : Schema) (d : QueryDoc) (hvalid : validate defaultRules s d = .ok [])
+    (hwp : Spec.wellParented s d = true) (hk : ∀ op ∈ d.ops, op.op ∈ parserOpKinds)
+    (hKnownRootType : Spec.knownRootType s d = true)
+    (hKnownTypeNames : Spec.variableTypesExist s d = true ∧ Spec.fragmentSpreadTypeExistence s d = true) :
+    LinkRules s d :=
+  { knownRootType := hKnownRootType
+    fieldSelections := (C08_FieldsOnCorrectType s d hwp).1
+      (validate_default_single s d hvalid _ (List.mem_filterMap.2 ⟨"FieldsOnCorrectType", by decide, rfl⟩))
+    typeConditions := hKnownTypeNames.2
+    variableTypes := hKnownTypeNames.1
+    spreads := (C08_KnownFragmentNames s d).1
+      (validate_default_single s d hvalid _ (List.mem_filterMap.2 ⟨"KnownFragmentNames", by decide, rfl⟩))
+    directives := ((C08_KnownDirectives s d hk).1
+      (validate_default_single s d hvalid _ (List.mem_filterMap.2 ⟨"KnownDirectives", by decide, rfl⟩))).1
+    argumentNames := (C08_KnownArgumentNames s d hwp hk).1
+      (validate_default_single s d hvalid _ (List.mem_filterMap.2 ⟨"KnownArgumentNames", by decide, rfl⟩)) }
+
+/-- (e) THE CAPSTONE over all node kinds, for documents that pass validation (`errors = []`) against
+    a closed schema.
+
+    `Spec.expectedLinks s d` — the demanded links the `linkscheck` op compares a link dump with — is
+    the rendering (`Demand.render`) of the structured demands `docDemands s d`: one demand per
+    field, fragment spread, inline fragment, directive, variable definition, fragment definition
+    and value node of the document (nodes of fragment definitions included, in the context of
+    their definition), each with the node itself and its declarative context.  For every demand
+      (met)     the run has an event about that node which carries exactly the demanded link:
+                field → parent type and the field's definition on it; spread → fragment definition;
+                directive → definition and location; variable definition / fragment definition →
+                definition of the type / type condition; value → expected type and definition
+                wherever demanded.  EXCEPTION (recorded known finding): an inline fragment carries
+                the enclosing type, not the definition of its type condition
+                (`C09_inline_fragment_link_is_parent`, `C09_inline_fragment_link_counterexample`);
+      (var)     a variable use has an event that shows a variable definition among the admissible
+                candidates (the operation's own definition; for a use inside a fragment definition
+                a definition of an operation in whose scope the fragment lies), unless there is no
+                candidate at all (then `linkscheck` does not judge it).  WHICH candidate the document
+                keeps after the run is `C09_variable_use_links_correct`: the one of the operation
+                that walked the use last;
+      (present) the demanded link exists: validity excludes unknown fields, fragments, directives,
+                arguments (C08 equivalences of FieldsOnCorrectType, KnownFragmentNames,
+                KnownDirectives, KnownArgumentNames), unknown root types and type names
+                (hypotheses named after the rules KnownRootType and KnownTypeNames, which have no
+                equivalence theorem yet), and the closed schema resolves every field, argument and
+                input-field type.
+    Hypotheses besides validity: `hwp` — every selection is written where the type in scope is
+    composite (every document that validates is such; it is what ScalarLeafs, FragmentsOnComposite-
+    Types and KnownTypeNames enforce together); `hk` — operation kinds the parser produces; `hpos` —
+    fragment definitions have distinct positions (every parse); `hString` — the schema has the
+    built-in `String` (the type of `__typename`; every loaded schema).
+    Not covered: that the contents of a list / object literal are untyped ONLY inside a custom-scalar
+    literal needs ValuesOfCorrectType (no equivalence theorem yet); the statement here demands of
+    untyped values exactly what `Spec.valueLinks` demands — nothing. -/
+theorem C09_links_correct (s : Schema) (d : QueryDoc) (evs : List Event) (hw : walkDoc s.view d = some evs)
+    (hvalid : validate defaultRules s d = .ok []) (hs : Gql.Spec.Closed s)
+    (hString : (s.type? (str "String")).isSome) (hwp : Spec.wellParented s d = true)
+    (hk : ∀ op ∈ d.ops, op.op ∈ parserOpKinds) (hpos : FragPosDistinct d)
+    (hKnownRootType : Spec.knownRootType s d = true)
+    (hKnownTypeNames : Spec.variableTypesExist s d = true ∧ Spec.fragmentSpreadTypeExistence s d = true) :
+    Spec.expectedLinks s d = (docDemands s d).map (Demand.render s d) ∧
+    (∀ dm ∈ docDemands s d, dm.Met s d evs) ∧
+    (∀ dm ∈ docDemands s d, ∀ cands o raw ch p, dm = .value cands o → o.v = .mk .variable raw ch p →
+      cands raw = [] ∨
+      ∃ e ∈ evs, (∃ exp dfn, e.p = .value o.v exp dfn ∧ (o.typed = true → exp = o.exp ∧ dfn = o.dfn)) ∧
+        varText (e.links.varDef p.start) ∈ cands raw) ∧
+    (∀ dm ∈ docDemands s d, dm.Present s d) :=
+  ⟨expectedLinks_eq s d, docDemands_met s d evs hw hwp hk, docDemands_var_met s d evs hw hwp hpos,
+   docDemands_present s d hs hString (linkRules_of_valid s d hvalid hwp hk hKnownRootType hKnownTypeNames)⟩
